@@ -1,87 +1,50 @@
 /-
-  C14 — `--take` stops reading.
+  C14 — `--take` stops reading: jawk terminates on unbounded input when it can.
+
+  Step level (`Jawk/Props/C14Steps.lean`): the limiter answers Break on the row that fills the limit and ever
+  after; every streaming stage and the splitter's loop propagate Break; the read loop and the file loop stop.
+  Run level (this file, helper `Jawk/Lemmas/Locality.lean`): the reader looks at most ONE position ahead, so
+  whatever follows the point where the loop stopped — finite, endless, faulty — cannot influence the run:
+  "for every continuation" is how an unbounded input is expressed.
 -/
-import Jawk.Model.Run
+import Jawk.Props.C14Steps
+import Jawk.Lemmas.Locality
 namespace Jawk.C14
-open Jawk
+open Jawk Loc
 
-variable (orc : Oracles) (sink : SinkCfg) (n : Nat)
+variable (orc : Oracles) (c : Cfg) (p : Pipeline)
 
-/-- the limiter answers `Break` on the row that fills the limit, and on every row after it -/
-theorem limiter_breaks_when_full (skip limit skipped passed : Nat) (cs : List StageCfg) (sts : List StageSt)
-    (w : Writer) (ctx : Ctx) (hs : ¬ skipped < skip) (hfull : passed ≥ limit) :
-    process orc sink n (.limit skip (some limit) :: cs) (.limit skipped passed :: sts) w ctx =
-      .ok (⟨.limit skipped passed :: sts, w⟩, .brk) := by
-  simp [process, hs, hfull]
+/-- prefix locality of the parser: two readers in the same state whose streams agree up to absolute position `N`
+give the same result, as long as the call does not look beyond `N` -/
+theorem parser_is_local {N : Nat} {r₁ r₂ : Reader} (hag : AgreeTo N r₁ r₂) (hw : Fuel.WF r₁)
+    (hpos : pos r₁.nextJson.2 ≤ N) :
+    r₂.nextJson.1 = r₁.nextJson.1 ∧ AgreeTo N r₁.nextJson.2 r₂.nextJson.2 := nextJson_local hag hw hpos
 
-theorem limiter_breaks_on_last (skip limit skipped passed : Nat) (cs : List StageCfg) (sts : List StageSt)
-    (w : Writer) (ctx : Ctx) (p : PState) (d : Decision) (hs : ¬ skipped < skip) (hroom : ¬ passed ≥ limit)
-    (hlast : passed + 1 ≥ limit) (hnext : process orc sink n cs sts w ctx = .ok (p, d)) :
-    process orc sink n (.limit skip (some limit) :: cs) (.limit skipped passed :: sts) w ctx =
-      .ok (⟨.limit skipped (passed + 1) :: p.sts, p.w⟩, .brk) := by
-  simp [process, hs, hroom, hnext, hlast, bind, Except.bind]
+/-- one byte of look-ahead, never more: a call pulls at most one item beyond what it consumed -/
+theorem lookahead_bound (r : Reader) :
+    r.nextJson.2.pulled ≤ r.pulled + (r.pending.length - r.nextJson.2.pending.length) + 1 :=
+  Loc.lookahead_bound r
 
-/-! every streaming stage upstream of the limiter returns its successor's decision -/
+/-- MAIN (loop): if the loop stopped on Break having pulled `d` items, then on ANY stream that agrees on those
+`d` items and the next position the loop does exactly the same: same state, same output, same number of bytes
+consumed — however long the stream goes on -/
+theorem take_stops (fuel fuel₂ : Nat) (r r₂ : Reader) (inFile : Nat) (s : RunState)
+    {s' : RunState} {r' : Reader} (hw : Fuel.WF r)
+    (h : readLoop orc c p fuel r inFile s = .ok (s', r', .brk))
+    (hag : Agree (r'.pulled - r.pulled + 1) r r₂) (hf : fuel ≤ fuel₂) :
+    ∃ r₂', readLoop orc c p fuel₂ r₂ inFile s = .ok (s', r₂', .brk) ∧ r₂'.pulled = r'.pulled :=
+  Loc.take_stops orc c p fuel fuel₂ r r₂ inFile s hw h hag hf
 
-theorem preset_propagates (vars : List (Str × JV)) (defs : List (Str × Expr)) (cs : List StageCfg)
-    (st : StageSt) (sts : List StageSt) (w : Writer) (ctx : Ctx) (p : PState) (d : Decision)
-    (h : process orc sink n cs sts w ((ctx.withVariables vars).withDefinitions defs) = .ok (p, d)) :
-    process orc sink n (.preset vars defs :: cs) (st :: sts) w ctx = .ok (⟨st :: p.sts, p.w⟩, d) := by
-  simp [process, h, bind, Except.bind]
-
-theorem filter_propagates (e : Expr) (cs : List StageCfg) (st : StageSt) (sts : List StageSt) (w : Writer)
-    (ctx : Ctx) (p : PState) (d : Decision) (hv : eval orc evalFuel e ctx = .ok (some (.bool true)))
-    (h : process orc sink n cs sts w ctx = .ok (p, d)) :
-    process orc sink n (.filter e :: cs) (st :: sts) w ctx = .ok (⟨st :: p.sts, p.w⟩, d) := by
-  simp [process, evalE, liftR, hv, h, bind, Except.bind]
-
-theorem select_propagates (name : Str) (e : Expr) (cs : List StageCfg) (st : StageSt) (sts : List StageSt)
-    (w : Writer) (ctx : Ctx) (p : PState) (d : Decision) (r : Option JV)
-    (hv : eval orc evalFuel e ctx = .ok r)
-    (h : process orc sink n cs sts w (ctx.withResult name r) = .ok (p, d)) :
-    process orc sink n (.select name e :: cs) (st :: sts) w ctx = .ok (⟨st :: p.sts, p.w⟩, d) := by
-  simp [process, evalE, liftR, hv, h, bind, Except.bind]
-
-theorem unique_propagates (cs : List StageCfg) (seen : List CtxKey) (sts : List StageSt) (w : Writer)
-    (ctx : Ctx) (p : PState) (d : Decision) (hnew : (seen.any fun s => CtxKey.same s ctx.key) = false)
-    (h : process orc sink n cs sts w ctx = .ok (p, d)) :
-    process orc sink n (.unique :: cs) (.unique seen :: sts) w ctx =
-      .ok (⟨.unique (seen ++ [ctx.key]) :: p.sts, p.w⟩, d) := by
-  simp [process, hnew, h, bind, Except.bind]
-
-/-- the split loop stops at the first `Break` and returns it: later elements are not processed -/
-theorem splitter_stops_at_break (next : List StageSt → Writer → Ctx → Res (PState × Decision))
-    (sts : List StageSt) (w : Writer) (c : Ctx) (rest : List Ctx) (p : PState)
-    (h : next sts w c = .ok (p, .brk)) :
-    feedUntilBreak next sts w (c :: rest) = .ok (p, .brk) := by
-  simp [feedUntilBreak, h, bind, Except.bind]
-
-theorem split_propagates (e : Expr) (cs : List StageCfg) (st : StageSt) (sts : List StageSt) (w : Writer)
-    (ctx : Ctx) (l : List JV) (p : PState) (d : Decision)
-    (hv : eval orc evalFuel e ctx = .ok (some (.arr l)))
-    (h : feedUntilBreak (process orc sink n cs) sts w (l.map ctx.withInput) = .ok (p, d)) :
-    process orc sink n (.split e :: cs) (st :: sts) w ctx = .ok (⟨st :: p.sts, p.w⟩, d) := by
-  simp [process, evalE, liftR, hv, h, bind, Except.bind]
-
-/-- the read loop ends at the first `Break`: the reader is left exactly after the value that
-produced it (plus the single look-ahead byte the parser had to pull), and no later byte of the
-input is ever requested — whatever follows, finite or not -/
-theorem read_loop_stops_at_break (c : Cfg) (p : Pipeline) (fuel : Nat) (r r' : Reader) (inFile : Nat)
-    (s : RunState) (v : JV) (ps : PState)
-    (hv : r.nextJson = (.ok (some v), r'))
-    (hkeep : (c.onlyObjectsAndArrays && !v.isObjOrArr) = false)
-    (hb : process orc p.sink p.sinkLen p.cfgs s.sts s.out
-            { input := v, ictx := some { startLoc := r.loc, endLoc := r'.loc, fileIndex := inFile, index := s.index } }
-          = .ok (ps, .brk)) :
-    readLoop orc c p (fuel + 1) r inFile s = .ok ({ s with sts := ps.sts, out := ps.w }, r', .brk) := by
-  rw [readLoop]
-  simp [hv, hkeep, hb]
-
-/-- after a `Break` no further source is opened -/
-theorem files_after_break_not_opened (c : Cfg) (p : Pipeline) (src : Source) (rest : List Source) (s s' : RunState)
-    (r' : Reader)
-    (h : readLoop orc c p (src.items.length + 2) (Reader.ofItems src.items src.name) 0 s = .ok (s', r', .brk)) :
-    readSources orc c p (src :: rest) s = .ok { s' with pulled := s'.pulled ++ [r'.pulled] } := by
-  simp [readSources, h]
+/-- MAIN (run): when the loop over the first source stops on Break before the end of `items`, the whole run on
+`items ++ cont` — for EVERY continuation `cont` and whatever sources follow — equals the run on `items`:
+same stdout, same stderr, same result, same bytes pulled.  Hence termination on an endless stream. -/
+theorem take_stops_run (sources sources₂ : List Source) (items cont : List RItem) (name : Option Str)
+    (wOut wErr w0 : Writer) {s' : RunState} {r' : Reader}
+    (hb : build orc c = .ok p) (hs : sinkStart p.sink p.titles wOut = .ok w0)
+    (h : readLoop orc c p (items.length + 2) (Reader.ofItems items name) 0
+          { sts := p.sts, out := w0, err := wErr } = .ok (s', r', .brk))
+    (he : r'.eof = false) :
+    run orc c (⟨name, items ++ cont⟩ :: sources₂) wOut wErr = run orc c (⟨name, items⟩ :: sources) wOut wErr :=
+  Loc.take_stops_run orc c p sources sources₂ items cont name wOut wErr w0 hb hs h he
 
 end Jawk.C14
